@@ -350,14 +350,28 @@ def c17_case(tdir, d, k, b):
             vrows.append([milli(x)[0] for x in line.split("\t")] if line else [])
     except Exception:
         vparsed = 0
-    for p in (bw, bed, out, out1, outv):
+    # ... and with -n: a label (the name column, or chrom:start-end when the names are not known to be unique) before the same values
+    outn = out + ".vn"
+    rcn, _, errn = run_tool(tdir, "own", "bigwigvaluesoverbed", [bw, bed, outn, "-n"])
+    nrows, nparsed = [], 1
+    try:
+        for i, line in enumerate(open(outn).read().splitlines(), 1):
+            p = line.split("\t")
+            r = b["regions"][i - 1]
+            if p[0] not in ("r%d" % i, "%s:%d-%d" % (chrom_name(r[0]), r[1], r[2])):
+                nparsed = 0
+            nrows.append([milli(x)[0] for x in p[1:]])
+    except Exception:
+        nparsed = 0
+    for p in (bw, bed, out, out1, outv, outn):
         try:
             os.remove(p)
         except OSError:
             pass
     base = {k2: b[k2] for k2 in ("ds", "items", "regions", "name", "minmax", "threads")}
     return [dict(base, tool="average", obs={"rc": rc, "parsed": parsed, "rows": rows, "same_as_t1": 1 if (rc1 == 0 and raw == raw1) else 0, "err": err[-200:]}),
-            dict(base, tool="values", obs={"rc": rcv, "parsed": vparsed, "vrows": vrows, "err": errv[-200:]})]
+            dict(base, tool="values", obs={"rc": rcv, "parsed": vparsed, "vrows": vrows, "err": errv[-200:]}),
+            dict(base, tool="values", named=1, obs={"rc": rcn, "parsed": nparsed, "vrows": nrows, "err": errn[-200:]})]
 
 
 def c17_main():
@@ -453,21 +467,35 @@ def merge_case(tdir, d, k, b):
     outkind = b["out"]
     ext = {"bw": "bw", "bigWig": "bigWig", "bedGraph": "bedGraph"}.get(outkind, "out")
     out = os.path.join(d, "merged_%s.%s" % (tag, ext))
-    args = [out]
-    for bw, m in zip(bws, b.get("mult") or [1] * len(bws)):
-        args += ["-b", bw] * m
+    style = b.get("style", "native")
+    if style != "native" and outkind.startswith("type-"):
+        outkind, ext = "bedGraph", "bedGraph"
+        out = os.path.join(d, "merged_%s.%s" % (tag, ext))
+    names = [bw for bw, m in zip(bws, b.get("mult") or [1] * len(bws)) for _ in range(m)]
+    listfile = os.path.join(d, "list_%s.txt" % tag)
+    if style in ("list", "ucsc-list"):
+        open(listfile, "w").write("\n".join(names) + "\n")
+    ucsc = style.startswith("ucsc")
+    opts = []
     if outkind == "type-bigwig":
-        args += ["--output-type", "bigwig"]
+        opts += ["--output-type", "bigwig"]
     if outkind == "type-BedGraph":
-        args += ["--output-type", "BedGraph"]
+        opts += ["--output-type", "BedGraph"]
     if b["clip"]:
-        args += ["--clip", str(b["clip"])]
+        opts += ["-clip=%s" % b["clip"]] if ucsc else ["--clip", str(b["clip"])]
     if b["adjust"]:
-        args += ["--adjust", str(b["adjust"])]
+        opts += ["-adjust=%s" % b["adjust"]] if ucsc else ["--adjust", str(b["adjust"])]
     if b["thr"]:
-        args += ["--threshold", str(b["thr"])]
-    args += ["-t", str(b["threads"])]
-    rc, _, err = run_tool(tdir, "own", "bigwigmerge", args)
+        opts += ["-threshold=%s" % b["thr"]] if ucsc else ["--threshold", str(b["thr"])]
+    if style == "native":
+        args = [out] + [x for n_ in names for x in ("-b", n_)] + opts + ["-t", str(b["threads"])]
+    elif style == "list":
+        args = [out, "-l", listfile] + opts + ["-t", str(b["threads"])]
+    elif style == "ucsc":
+        args = opts + names + [out]              # the kent call: bigWigMerge [options] in1.bw in2.bw .. out
+    else:
+        args = opts + ["-inList", listfile, out]
+    rc, _, err = run_tool(tdir, "mixedcase" if ucsc else "own", "bigwigmerge", args)
     produced = 1 if os.path.exists(out) and os.path.getsize(out) > 0 else 0
     # "bases absent where the thresholded sum is absent": an input set whose merged result is empty legitimately gives an empty bedGraph
     is_bw = outkind in ("bw", "bigWig", "type-bigwig")
@@ -493,12 +521,12 @@ def merge_case(tdir, d, k, b):
             parsed = 0
     else:
         parsed = 1 if not produced else 0
-    for p in bws + [out, out + ".txt"]:
+    for p in bws + [out, out + ".txt", listfile]:
         try:
             os.remove(p)
         except OSError:
             pass
-    return dict(b, mode="tool", argv=args[1:], obs={"rc": rc, "produced": produced, "parsed": parsed, "out": recs, "err": err[-300:]})
+    return dict(b, mode="tool", argv=[a for a in args if a != out], obs={"rc": rc, "produced": produced, "parsed": parsed, "out": recs, "err": err[-300:]})
 
 
 def merge_tool_part(run):
@@ -510,7 +538,7 @@ def merge_tool_part(run):
         raise ToolError("vacuity: %d merge tool configurations" % len(beh))
     if not run.thorough:
         many = [b for b in beh if max(b["mult"]) > 1]
-        beh = [b for b in beh if max(b["mult"]) == 1][run.seed % 3::3] + many[run.seed % 6::6]
+        beh = [b for b in beh if max(b["mult"]) == 1][run.seed % 7::7] + many[run.seed % 12::12]
     tdir = tools_dir()
     d = os.path.join(run.wd, "mfiles")
     os.makedirs(d, exist_ok=True)
@@ -526,7 +554,7 @@ def merge_tool_part(run):
         tags[tag] = tags.get(tag, 0) + 1
         o = obs[i]
         opts = [a for a in o["argv"] if a != "-b" and not a.endswith(".bw")]
-        run.violation("C15 merge tool %s: ds=%s inputs x %s options=%s -> %s" % (tag, o["ds"], o.get("mult"), opts, json.dumps(o["obs"])[:300]),
+        run.violation("C15 merge tool %s: ds=%s style=%s inputs x %s options=%s -> %s" % (tag, o["ds"], o.get("style"), o.get("mult"), opts, json.dumps(o["obs"])[:300]),
                       {"kind": "cli15", "tag": tag, "case": {k: o[k] for k in o if k not in ("obs", "argv")}, "options": opts, "obs": o["obs"]})
     if tags:
         log("[C15] merge tool failing observations by tag: %s" % tags)
